@@ -129,10 +129,14 @@ func (d *dumpStruct) loopHandleKV(s reflect.StructField, tv reflect.Value, isNee
 		mapLen := tv.Len()
 		tmpIndex := 0
 		for mapObj.Next() {
-			// 把 key 处理成字符串
-			d.buf.WriteByte('"')
-			d.loopHandleKV(d.nullStructFiled, mapObj.Key(), false)
-			d.buf.WriteByte('"')
+			// 把 key 处理成字符串, 字符串类型的 key 本身已带引号
+			if mapKey := mapObj.Key(); mapKey.Kind() == reflect.String {
+				d.loopHandleKV(d.nullStructFiled, mapKey, false)
+			} else {
+				d.buf.WriteByte('"')
+				d.loopHandleKV(d.nullStructFiled, mapKey, false)
+				d.buf.WriteByte('"')
+			}
 			d.buf.WriteString(":")
 			d.loopHandleKV(d.nullStructFiled, mapObj.Value(), false)
 			if tmpIndex < mapLen-1 {
